@@ -471,7 +471,7 @@ _tg, _te = _thr.make(T_CALLS, ['geodepy/angles.py'], 'angles:threads', quick=['d
 SUBCHECKS = [
     Sub('graph', gen, ev_single, chunk=6, floor=1000, envs=4),
     Sub('reject', gen_reject, ev_reject_single, chunk=1, floor=100, envs=2),
-    Sub('threads', _tg, _te, chunk=1, floor=3, poison=False, fresh=True),
+    Sub('threads', _tg, _te, chunk=1, floor=3, poison=False, fresh=True, timeout=3600),
 ]
 
 
